@@ -415,3 +415,7 @@ class IMAPConnection:
                 finally:
                     await state.do_cleanup()
                     current_command.reset(prev_cmd)
+                    # a response refers to the selected mailbox snapshot it
+                    # was built from: do not keep it alive into the next
+                    # command, which may fail without producing a new one
+                    response = None  # type: ignore[assignment]
